@@ -71,8 +71,11 @@ Definition best (x : N) (acc : option (N * nat)) (pn : N * nat) : option (N * na
   | Some b => if cyc_ltb x (fst pn) (fst b) then Some pn else acc
   end.
 
+Definition owner_pos (P : list (N * nat)) (x : N) : option nat :=
+  option_map snd (fold_left (best x) P None).
+
 Definition owner_fn (vh : nat -> nat -> N) (m : members) (x : N) : option nat :=
-  option_map snd (fold_left (best x) (positions vh m) None).
+  owner_pos (positions vh m) x.
 
 Definition sop_of (o : op) : sop := match o with Add n r => SAdd n r | Remove n => SRemove n end.
 
@@ -83,8 +86,9 @@ Definition positive_member (n : nat) (m : members) : bool :=
 (* --- property-level checks on what the implementation answered --- *)
 Definition row_ok (vh : nat -> nat -> N) (cap : nat) (probes : list (N * N)) (m m' : members) (o : op)
            (prev row : list (option nat)) : bool :=
-  (* the answer is the Spec owner (total, a function of membership only) *)
-  all2 (fun pr ob => option_eqb Nat.eqb (owner_fn vh m' (fst pr)) ob) probes row &&
+  (* the answer is the Spec owner (total, a function of membership only);
+     owner_pos (positions vh m') x is owner_fn vh m' x with the ring computed once per row *)
+  (let P := positions vh m' in all2 (fun pr ob => option_eqb Nat.eqb (owner_pos P (fst pr)) ob) probes row) &&
   (* totality, stated on observations alone *)
   forallb (fun ob => match ob with
                      | Some a => positive_member a m'
@@ -115,13 +119,13 @@ Definition count_owner (n : nat) (row : list (option nat)) : nat :=
   List.length (filter (fun ob => option_eqb Nat.eqb ob (Some n)) row).
 
 Definition balance_ok (tol : nat) (m : members) (row : list (option nat)) : bool :=
-  let total := fold_left (fun a nr => (a + snd nr)%nat) m 0%nat in
-  let keys := List.length row in
+  let total := fold_left (fun a nr => a + N.of_nat (snd nr)) m 0 in
+  let keys := N.of_nat (List.length row) in
   forallb (fun nr =>
-    let got := (count_owner (fst nr) row * total * 100)%nat in      (* observed share * total * 100 *)
-    let want := (keys * snd nr * 100)%nat in
-    let slack := (keys * snd nr * tol)%nat in
-    Nat.leb got (want + slack) && Nat.leb want (got + slack)) m.
+    let got := N.of_nat (count_owner (fst nr) row) * total * 100 in      (* observed share * total * 100 *)
+    let want := keys * N.of_nat (snd nr) * 100 in
+    let slack := keys * N.of_nat (snd nr) * N.of_nat tol in
+    (got <=? want + slack) && (want <=? got + slack)) m.
 
 Definition spec_ok (c : case) : bool :=
   let cap := cap_of c in
